@@ -117,3 +117,74 @@ func setDiff(a, b map[string]bool) []string {
 func fmtSet(m map[string]bool) string {
 	return fmt.Sprintf("{%s}", strings.Join(sortedKeys(m), ","))
 }
+
+// defSite is one assignment to a local variable.
+type defSite struct {
+	Rhs   ast.Expr // the right-hand side expression (a call for multi-value assignments)
+	Index int      // result index when Rhs is a multi-value call, else 0
+	Multi bool
+	Stmt  ast.Node
+}
+
+// defsOf lists every definition/assignment of obj inside the function body (including closures).
+// Range/type-switch bindings and address-taken mutations are reported with Rhs == nil.
+func defsOf(fi *core.FuncInfo, obj types.Object) []defSite {
+	info := fi.Pkg.TypesInfo
+	var out []defSite
+	ast.Inspect(fi.Decl.Body, func(n ast.Node) bool {
+		switch s := n.(type) {
+		case *ast.AssignStmt:
+			for i, l := range s.Lhs {
+				if core.ObjOf(info, l) != obj {
+					continue
+				}
+				if len(s.Rhs) == len(s.Lhs) {
+					out = append(out, defSite{Rhs: s.Rhs[i], Stmt: s})
+				} else if len(s.Rhs) == 1 {
+					out = append(out, defSite{Rhs: s.Rhs[0], Index: i, Multi: true, Stmt: s})
+				}
+			}
+		case *ast.ValueSpec:
+			for i, name := range s.Names {
+				if info.Defs[name] != obj {
+					continue
+				}
+				if len(s.Values) == len(s.Names) {
+					out = append(out, defSite{Rhs: s.Values[i], Stmt: s})
+				} else if len(s.Values) == 1 {
+					out = append(out, defSite{Rhs: s.Values[0], Index: i, Multi: true, Stmt: s})
+				} else {
+					out = append(out, defSite{Rhs: nil, Stmt: s}) // zero value
+				}
+			}
+		case *ast.RangeStmt:
+			if (s.Key != nil && core.ObjOf(info, s.Key) == obj) || (s.Value != nil && core.ObjOf(info, s.Value) == obj) {
+				out = append(out, defSite{Rhs: nil, Stmt: s})
+			}
+		case *ast.IncDecStmt:
+			if core.ObjOf(info, s.X) == obj {
+				out = append(out, defSite{Rhs: nil, Stmt: s})
+			}
+		case *ast.UnaryExpr:
+			if s.Op.String() == "&" && core.ObjOf(info, s.X) == obj {
+				// address taken: may be written elsewhere; only flag for non-struct scalars
+				if _, isStruct := obj.Type().Underlying().(*types.Struct); !isStruct {
+					out = append(out, defSite{Rhs: nil, Stmt: s})
+				}
+			}
+		}
+		return true
+	})
+	return out
+}
+
+// isParam reports whether obj is a parameter (or receiver) of the function.
+func isParam(fi *core.FuncInfo, obj types.Object) bool {
+	sig := fi.Obj.Type().(*types.Signature)
+	for i := 0; i < sig.Params().Len(); i++ {
+		if sig.Params().At(i) == obj {
+			return true
+		}
+	}
+	return sig.Recv() != nil && sig.Recv() == obj
+}
